@@ -669,7 +669,7 @@ def check(run):
         r3 = compare_frames(exp + [(None, "/t.html", 1)], o, {"/t.html": text}) is not None
         run.negative_control(r1 and r2 and r3, "frame comparer accepted a corrupted expectation / shifted template")
         done += 1
-    if not done:
+    if not done and not mism:      # on a tree that fails everywhere the violations are the verdict
         raise MachineryError("no negative control could be run")
     run.assumptions += [
         "frames of generated stub functions (def name without render_ prefix) are not compared: no single construct owns them",
